@@ -54,6 +54,16 @@ Theorem C02_rigid_invariant_fitted : forall (M : M3) (q q' : Q4) ref vec t g, pr
 Proof. exact fitted_rigid_M. Qed.
 Print Assumptions C02_rigid_invariant_fitted.
 
+(* rmsd with atomPermutation: without permutations it is the plain rmsd; otherwise it is at most the rmsd against the
+   reference and against every listed permuted copy of it (it is the smallest of them) *)
+Theorem C02_rmsd_atomPermutation : forall (q : Q4) ref perms g,
+  cv_rmsd_perm Rops q ref [] g = cv_rmsd Rops q ref g /\
+  cv_rmsd_perm Rops q ref perms g <= cv_rmsd Rops q ref g /\
+  (forall perm, In perm perms ->
+     cv_rmsd_perm Rops q ref perms g <= sqrt (perm_sum Rops (fit_positions Rops q ref g) ref perm / INR (length g))).
+Proof. intros. split; [apply cv_rmsd_perm_nil | apply cv_rmsd_perm_min]. Qed.
+Print Assumptions C02_rmsd_atomPermutation.
+
 (* a group fitted through a separate fittingGroup (fitg): its coordinates in the fitted frame are unchanged by a rigid
    motion of all atoms; with rotateToReference off, by translations *)
 Theorem C02_rigid_invariant_fitting_group : forall (M : M3) (q q' : Q4) ref t fitg g, proper_rotation M -> fitg <> [] ->
